@@ -194,7 +194,7 @@ pub fn run_c15(tier: Tier) -> ! {
         .set("symbol_depth", depth)
         .set("outcomes", counts.to_json())
         .set("exhaustive", true);
-    finish(&ctx, cov, assumptions(), tally, &replay)
+    finish(&ctx, cov, assumptions(), tally, &crate::replay_case)
 }
 
 // ------------------------------------------------------------------ C11: fault schedules
@@ -204,16 +204,20 @@ pub enum Fault {
     Interrupted,
     Other,
     BrokenPipe,
+    TimedOut,
     Eof,
 }
 impl Fault {
-    const ALL: [Fault; 5] = [Fault::WouldBlock, Fault::Interrupted, Fault::Other, Fault::BrokenPipe, Fault::Eof];
+    const ALL: [Fault; 6] = [Fault::WouldBlock, Fault::Interrupted, Fault::Other, Fault::BrokenPipe, Fault::TimedOut, Fault::Eof];
+    /// what an `embedded_hal::serial::Read` can answer besides a byte
+    const EH: [Fault; 2] = [Fault::WouldBlock, Fault::Other];
     fn token(self) -> &'static str {
         match self {
             Fault::WouldBlock => "WouldBlock",
             Fault::Interrupted => "Interrupted",
             Fault::Other => "Other",
             Fault::BrokenPipe => "BrokenPipe",
+            Fault::TimedOut => "TimedOut",
             Fault::Eof => "Eof",
         }
     }
@@ -246,6 +250,7 @@ impl<'a> std::io::Read for SchedRead<'a> {
                 Fault::Interrupted => return Err(Error::new(ErrorKind::Interrupted, "intr")),
                 Fault::Other => return Err(Error::new(ErrorKind::Other, "other")),
                 Fault::BrokenPipe => return Err(Error::new(ErrorKind::BrokenPipe, "pipe")),
+                Fault::TimedOut => return Err(Error::new(ErrorKind::TimedOut, "timeout")),
                 Fault::Eof => {
                     self.eof = true;
                     return Ok(0);
@@ -259,6 +264,33 @@ impl<'a> std::io::Read for SchedRead<'a> {
         buf[0] = self.s[self.i];
         self.i += 1;
         Ok(1)
+    }
+}
+
+/// Choice-driven `embedded_hal::serial::Read`: no notion of end of input; when the stream is
+/// exhausted it answers WouldBlock forever.
+struct SchedEh<'a> {
+    s: &'a [u8],
+    i: usize,
+    call: usize,
+    sched: &'a [(usize, Fault)],
+}
+impl<'a> embedded_hal::serial::Read<u8> for SchedEh<'a> {
+    type Error = u16;
+    fn read(&mut self) -> nb::Result<u8, u16> {
+        let c = self.call;
+        self.call += 1;
+        if let Some((_, f)) = self.sched.iter().find(|(k, _)| *k == c) {
+            match f {
+                Fault::WouldBlock => return Err(nb::Error::WouldBlock),
+                _ => return Err(nb::Error::Other(0xbad)),
+            }
+        }
+        if self.i >= self.s.len() {
+            return Err(nb::Error::WouldBlock);
+        }
+        self.i += 1;
+        Ok(self.s[self.i - 1])
     }
 }
 
@@ -293,6 +325,49 @@ fn conv_nb<E: sml_rs::util::ByteSourceErr>(r: nb::Result<&[u8], sml_rs::transpor
 
 /// Drives the real reader over the scheduled source; stops after two consecutive end
 /// signals (next: None; read: IoErr(Eof, 0)) or `max_calls`.
+macro_rules! drive_loop {
+    ($rd:expr, $drv:expr, $max_calls:expr, $res:expr, $stop_at_end:expr) => {{
+        let mut rd = $rd;
+        let drv = $drv;
+        let res = &mut $res;
+        let mut ends = 0;
+        for _ in 0..$max_calls {
+            let r: CallRes = match drv {
+                Driver::Next => rd.next::<DecodedBytes>().map(conv_read),
+                Driver::Read => Some(conv_read(rd.read::<DecodedBytes>())),
+                Driver::NextNb => match rd.next_nb::<DecodedBytes>() {
+                    Ok(None) => None,
+                    Ok(Some(m)) => Some(Ev::Msg(m.to_vec())),
+                    Err(nb::Error::WouldBlock) => Some(Ev::Io(IoK::WouldBlock, 0)),
+                    Err(nb::Error::Other(e)) => Some(conv_read(Err(e))),
+                },
+                Driver::ReadNb => Some(conv_nb(rd.read_nb::<DecodedBytes>())),
+            };
+            let is_end = matches!(r, None | Some(Ev::Io(IoK::Eof, 0)));
+            res.push(r);
+            if is_end && $stop_at_end {
+                ends += 1;
+                if ends >= 2 {
+                    break;
+                }
+            } else {
+                ends = 0;
+            }
+        }
+    }};
+}
+/// Same over the embedded-hal byte source (exactly `ncalls` calls, there is no end of input).
+fn drive_real_eh(stream: &[u8], sched: &[(usize, Fault)], drv: Driver, ncalls: usize) -> Vec<CallRes> {
+    let mut res: Vec<CallRes> = vec![];
+    let r = guarded(|| {
+        let src = SchedEh { s: stream, i: 0, call: 0, sched };
+        drive_loop!(SmlReader::with_static_buffer::<64>().from_eh_reader(src), drv, ncalls, res, false);
+    });
+    if let Err(p) = r {
+        res.push(Some(Ev::Panic(p)));
+    }
+    res
+}
 fn drive_real(stream: &[u8], sched: &[(usize, Fault)], drv: Driver, max_calls: usize) -> (Vec<CallRes>, usize) {
     let calls = Cell::new(0usize);
     let mut res: Vec<CallRes> = vec![];
@@ -358,7 +433,7 @@ fn segment(stream: &[u8]) -> Segment {
 }
 /// The reference reader of C11: what each call must return, given the stream, the
 /// schedule and the driver. Differential: uses the fault-free decoding of each segment.
-fn drive_ref(stream: &[u8], sched: &[(usize, Fault)], drv: Driver, max_calls: usize) -> Vec<CallRes> {
+fn drive_ref(stream: &[u8], sched: &[(usize, Fault)], drv: Driver, max_calls: usize, eh: bool) -> Vec<CallRes> {
     let mut res = vec![];
     let mut seg_from = 0usize;
     let mut seg = segment(stream);
@@ -373,6 +448,10 @@ fn drive_ref(stream: &[u8], sched: &[(usize, Fault)], drv: Driver, max_calls: us
             let c = call;
             call += 1;
             let fault = if eof { None } else { sched.iter().find(|(k, _)| *k == c).map(|x| x.1) };
+            if eh && fault.is_none() && p >= seg.len {
+                // an embedded-hal source has no end of input: nothing more arrives
+                break Some(Ev::Io(IoK::WouldBlock, 0));
+            }
             let at_end = eof || (fault.is_none() && p >= seg.len) || fault == Some(Fault::Eof);
             if at_end {
                 eof = true;
@@ -386,7 +465,7 @@ fn drive_ref(stream: &[u8], sched: &[(usize, Fault)], drv: Driver, max_calls: us
             match fault {
                 Some(Fault::WouldBlock) => break Some(Ev::Io(IoK::WouldBlock, 0)),
                 Some(Fault::Interrupted) => continue,
-                Some(Fault::Other) | Some(Fault::BrokenPipe) => {
+                Some(Fault::Other) | Some(Fault::BrokenPipe) | Some(Fault::TimedOut) => {
                     let n = seg.unacc[p];
                     seg_from += p;
                     seg = segment(&stream[seg_from..]);
@@ -404,7 +483,7 @@ fn drive_ref(stream: &[u8], sched: &[(usize, Fault)], drv: Driver, max_calls: us
         };
         let is_end = matches!(r, None | Some(Ev::Io(IoK::Eof, 0)));
         res.push(r);
-        if is_end {
+        if is_end && !eh {
             ends += 1;
             if ends >= 2 {
                 break;
@@ -432,11 +511,16 @@ fn callres_short(v: &[CallRes]) -> String {
 fn sched_str(s: &[(usize, Fault)]) -> String {
     s.iter().map(|(c, f)| format!("{}:{}", c, f.token())).collect::<Vec<_>>().join(",")
 }
-fn c11_case(stream: &[u8], sched: &[(usize, Fault)], drv: Driver, out: &mut Vec<Viol>, counts: &mut Counts) {
+fn c11_case(stream: &[u8], sched: &[(usize, Fault)], drv: Driver, eh: bool, out: &mut Vec<Viol>, counts: &mut Counts) {
     let max_calls = stream.len() + sched.len() + 8;
-    let (got, _ncalls) = drive_real(stream, sched, drv, max_calls);
-    let want = drive_ref(stream, sched, drv, max_calls);
-    counts.inc("schedules run");
+    let (got, want) = if eh {
+        // per call at most one byte-source fault or one result: len + faults + 4 calls see everything
+        let n = sched.len() + 6 + stream.len() / 8;
+        (drive_real_eh(stream, sched, drv, n), drive_ref(stream, sched, drv, n, true))
+    } else {
+        (drive_real(stream, sched, drv, max_calls).0, drive_ref(stream, sched, drv, max_calls, false))
+    };
+    counts.inc(if eh { "schedules run (embedded-hal source)" } else { "schedules run" });
     if got.iter().any(|r| matches!(r, Some(Ev::Io(IoK::WouldBlock, _)))) {
         counts.inc("schedules with a visible WouldBlock");
     }
@@ -450,9 +534,9 @@ fn c11_case(stream: &[u8], sched: &[(usize, Fault)], drv: Driver, out: &mut Vec<
         let class = if got.iter().any(|r| matches!(r, Some(Ev::Panic(_)))) { "C05 reader panics under a byte-source fault" } else { "C11 reader results under byte-source faults differ from the reference reader" };
         out.push(Viol {
             class: class.into(),
-            key: format!("{}:{}:[{}]", hex(stream), drv.token(), sched_str(sched)),
+            key: format!("{}:{}{}:[{}]", hex(stream), drv.token(), if eh { "/eh" } else { "" }, sched_str(sched)),
             what: format!("stream {} driver {} schedule [{}] (read-call index:fault): expected {} got {}", hex(stream), drv.token(), sched_str(sched), callres_short(&want), callres_short(&got)),
-            case: J::obj().set("engine", "e3").set("check", "C11").set("stream", hex(stream)).set("driver", drv.token()).set("schedule", sched_str(sched)),
+            case: J::obj().set("engine", "e3").set("check", "C11").set("stream", hex(stream)).set("driver", drv.token()).set("schedule", sched_str(sched)).set("source", if eh { "embedded-hal" } else { "io::Read" }),
             size: sched.len() * 1000 + stream.len(),
         });
     }
@@ -539,7 +623,8 @@ pub fn run_c11(tier: Tier) -> ! {
             let s = &streams[si];
             let ncalls = s.len() + k + 2;
             if k == 0 {
-                c11_case(s, &[], drv, &mut out, &mut c);
+                c11_case(s, &[], drv, false, &mut out, &mut c);
+                c11_case(s, &[], drv, true, &mut out, &mut c);
             } else {
                 for fl in Fault::ALL {
                     // remaining k-1 deviations after `first`
@@ -557,7 +642,12 @@ pub fn run_c11(tier: Tier) -> ! {
                             }
                         }
                     }
-                    rec(ncalls, first + 1, k - 1, &mut cur, &mut |sc| c11_case(s, sc, drv, &mut out, &mut c));
+                    rec(ncalls, first + 1, k - 1, &mut cur, &mut |sc| {
+                        c11_case(s, sc, drv, false, &mut out, &mut c);
+                        if sc.iter().all(|(_, f)| Fault::EH.contains(f)) {
+                            c11_case(s, sc, drv, true, &mut out, &mut c);
+                        }
+                    });
                 }
             }
             for v in out.drain(..) {
@@ -577,7 +667,7 @@ pub fn run_c11(tier: Tier) -> ! {
     let cov = J::obj()
         .set("evaluations", n)
         .set("distinct_nontrivial", counts.get("schedules with a visible WouldBlock") + counts.get("schedules where an error discards pending bytes") + counts.get("schedules where end of input finds pending bytes"))
-        .set("rule", "choice points = every call of io::Read::read made by the reader; default answer = next byte (Ok(0) at the end, persistently); deviations = WouldBlock, Interrupted, Other, BrokenPipe, premature persistent end of input; every placement of up to k deviations (same position repeated included) on each stream, for the drivers next / read / next_nb / read_nb, run to completion and compared call by call with the reference reader; non-trivial = schedules in which a fault became visible or cost pending bytes")
+        .set("rule", "choice points = every call of io::Read::read made by the reader; default answer = next byte (Ok(0) at the end, persistently); deviations = WouldBlock, Interrupted, Other, BrokenPipe, TimedOut, premature persistent end of input (io::Read source) and WouldBlock, Other (embedded-hal serial source, which has no end of input); every placement of up to k deviations (same position repeated included) on each stream, for the drivers next / read / next_nb / read_nb, run to completion and compared call by call with the reference reader; non-trivial = schedules in which a fault became visible or cost pending bytes")
         .set("samples", vec!["stream 1b1b1b1b0101010112340000 1b1b1b1b1a02.... driver next schedule [3:WouldBlock,9:Other]", "stream 55 1b + frame(000000) + 1b1b01 driver read_nb schedule [0:Interrupted,1:Interrupted]"])
         .set("states", n)
         .set("transitions", n)
@@ -588,7 +678,7 @@ pub fn run_c11(tier: Tier) -> ! {
         .set("exhaustive", true);
     let mut ctx = ctx;
     ctx.level = "fault_enumeration";
-    finish(&ctx, cov, assumptions(), tally, &replay)
+    finish(&ctx, cov, assumptions(), tally, &crate::replay_case)
 }
 
 // ------------------------------------------------------------------ C10: end to end
@@ -1036,7 +1126,7 @@ pub fn run_c10(tier: Tier) -> ! {
         .set("max_files", kmax)
         .set("outcomes", counts.to_json())
         .set("exhaustive", true);
-    finish(&ctx, cov, assumptions(), tally, &replay)
+    finish(&ctx, cov, assumptions(), tally, &crate::replay_case)
 }
 
 // ------------------------------------------------------------------ replay
@@ -1064,7 +1154,8 @@ pub fn replay(case: &J) -> Vec<Viol> {
                     Some((c.parse().ok()?, Fault::parse(f)?))
                 })
                 .collect();
-            c11_case(&s, &sched, drv, &mut out, &mut c);
+            let eh = case.get("source").and_then(|x| x.as_str()) == Some("embedded-hal");
+            c11_case(&s, &sched, drv, eh, &mut out, &mut c);
         }
         Some("C10") => {
             let arr = |k: &str| -> Vec<usize> { case.get(k).and_then(|a| a.as_arr()).map(|a| a.iter().filter_map(|x| x.as_i()).map(|x| x as usize).collect()).unwrap_or_default() };
